@@ -121,8 +121,7 @@ Qed.
 Lemma silent_poll_inner s0 s p : silent s0 s -> silent s0 (poll_inner p s).
 Proof.
   intros H. unfold poll_inner. repeat case_match; try exact H.
-  - apply silent_send_failed, silent_unwait, H.
-  - apply silent_send_failed, silent_ungrant, H.
+  - apply silent_send_failed, silent_unwait, silent_ungrant, H.
   - apply silent_after_push, silent_push, silent_ungrant, H.
   - apply silent_finish, H.
   - apply silent_finish, silent_record_dl, H.
@@ -131,8 +130,8 @@ Qed.
 Lemma silent_cancel_inner s0 s p : silent s0 s -> silent s0 (cancel_inner p s).
 Proof.
   intros H. unfold cancel_inner. repeat case_match; try exact H.
-  - apply silent_unwait, H.
   - apply silent_regrant, silent_ungrant, H.
+  - apply silent_unwait, H.
 Qed.
 
 Lemma silent_post_inner s0 s o : silent s0 s -> silent s0 (post_inner o s).
